@@ -175,6 +175,7 @@ package parser
 //@   ensures @value: result.Kind == TokenNumber ==> numBytesOf(result.Value) && len(result.Value) > 0
 //@   ensures @hexvalue: result.Kind == TokenNumber && old(s.pos) + 1 < len(s.s) && s.s[old(s.pos)] == '0' && (s.s[old(s.pos)+1] == 'x' || s.s[old(s.pos)+1] == 'X') ==> result.Value == hexValue(s.s[old(s.pos)+2:s.pos])
 //@   ensures @decvalue: result.Kind == TokenNumber && !(old(s.pos) + 1 < len(s.s) && s.s[old(s.pos)] == '0' && (s.s[old(s.pos)+1] == 'x' || s.s[old(s.pos)+1] == 'X')) ==> result.Value == normNum(s.s[old(s.pos):s.pos])
+//@   ensures @shape: result.Kind == TokenNumber ==> ite(hexPrefixAt(s.s, old(s.pos)), old(s.pos) + 2 < s.pos && allHex(s.s, old(s.pos) + 2, s.pos), decShape(s.s, old(s.pos), s.pos))
 //@   ensures @maxexp: result.Kind == TokenNumber && !(old(s.pos) + 1 < len(s.s) && s.s[old(s.pos)] == '0' && (s.s[old(s.pos)+1] == 'x' || s.s[old(s.pos)+1] == 'X')) ==> endsInExp(s.s, old(s.pos), s.pos) || !expStartsAt(s.s, s.pos)
 //@   ensures @brokenhex: result.Kind == TokenError ==> s.s[old(s.pos)] == '0' && (s.s[old(s.pos)+1] == 'x' || s.s[old(s.pos)+1] == 'X') && (s.pos == old(s.pos) + 2 || (old(s.pos) + 2 < s.pos && allHex(s.s, old(s.pos) + 2, s.pos)))
 //@   assigns s.pos, s.last
